@@ -207,6 +207,42 @@ theorem C17_strict_sni_counterexample :
       routeAllowed true (some N) (snapshot (fun _ _ => false) init (some N)) N = true :=
   p_strict_sni_counterexample
 
+-- -------------------------------- chain, missing SNI, coalesced streams --
+
+/-- **The certificate presented is the loaded leaf, followed by its chain.** The
+    chain rustls presents for a certificate added with `certificate_chain`
+    entries is the leaf first, then the certificates of the entries in order,
+    the leaf itself never repeated (`fullchain.pem`), nothing else. -/
+theorem C17_chain_shape (leaf : Nat) (links : List Link) (c : List Nat)
+    (h : assembleChain leaf links = some c) :
+    c = leaf :: (linkIds links).filter (· ≠ leaf) ∧ c.head? = some leaf ∧ leaf ∉ c.tail ∧
+      (∀ x, x ∈ c ↔ x = leaf ∨ x ∈ linkIds links) := p_chain_shape leaf links c h
+
+/-- the certificate is refused exactly when a chain block does not parse -/
+theorem C17_chain_refused_iff (leaf : Nat) (links : List Link) :
+    assembleChain leaf links = none ↔ Link.bad ∈ links := p_chain_refused_iff leaf links
+
+/-- a ClientHello without server name is never answered with a certificate (not
+    even the default one): `resolve` returns `None`, the handshake fails -/
+theorem C17_no_sni_no_certificate (re : Bytes → Bytes → Bool) (s : State) :
+    resolve re s none = .nothing := p_no_sni_no_certificate re s
+
+/-- **Connection coalescing**: the SAN snapshot is taken once per connection, so
+    `C17_strict_sni` holds for every stream of an HTTP/2 connection with SNI `N`,
+    whatever other authorities the connection carries. -/
+theorem C17_strict_sni_streams (re : Bytes → Bytes → Bool) (ops : List Op) (N : Bytes) (hN : GoodHost N)
+    (authorities : List Bytes) :
+    ∀ a ∈ authorities,
+      routeAllowed true (some N) (snapshot re (run init ops) (some N)) a = true →
+      (∃ c, Stored (run init ops) c ∧ resolve re (run init ops) (some N) = .cert c.fp ∧ CertCovers c N ∧
+          ∃ name ∈ c.names, SniCovers (normName name) (hostOf a)) ∨
+      (resolve re (run init ops) (some N) = .default ∧
+          (¬ ∃ c, Stored (run init ops) c ∧ CertCovers c N) ∧ lower (stripPort a) = N) :=
+  p_strict_sni_streams re ops N hN authorities
+
+example : assembleChain 1 [.cert 1, .cert 2, .cert 1, .cert 3] = some [1, 2, 3] ∧
+    assembleChain 4 [.cert 5, .bad] = none ∧ assembleChain 5 [] = some [5] := by decide
+
 -- ------------------------------------------- C07 on the certificate store --
 
 /-- **C07 (worker certificate store): a command answered with an error leaves no
